@@ -28,6 +28,8 @@ def budget(tier):
 
 
 def gen_case(rng, tier, k):
+    if k % (25 if tier == "quick" else 10) == 0:
+        return {"model": rng.randrange(10000), "max_support": 10 if tier == "quick" else 13}
     nmax = 6 if tier == "quick" else 7
     bnet = common.g_mixed(rng, nmax=nmax, p_core=0.2)
     if rng.random() < 0.12:
@@ -94,7 +96,70 @@ def make_free_input_sd(case):
     return SuccessionDiagram(bn)
 
 
+def run_model_case(case):
+    """Repository model, function by function: the sub-network induced by the support of f_v is sent to
+    the Lean judge together with the transitions of v (cubes only mention support variables)."""
+    import glob
+    from biodivine_aeon import BooleanNetwork
+    from biobalm.petri_net_translation import network_to_petrinet, place_to_variable
+    from biobalm.interaction_graph_utils import cleanup_network
+
+    files = sorted(glob.glob(os.path.join(common.REPO, "models", "bbm-bnet-inputs-true", "*.bnet")))
+    path = files[case["model"] % len(files)]
+    bn = cleanup_network(BooleanNetwork.from_file(path))
+    if bn.variable_count() > 120:
+        return {"fails": [], "diffs": [], "tags": ["model:too-large"], "nontrivial": False}
+    pn = network_to_petrinet(bn)
+    names = bn.variable_names()
+    by_var = {}
+    for node, d in pn.nodes(data=True):
+        if d.get("kind") == "transition":
+            by_var.setdefault(d["change"], []).append(node)
+    fails, checked, skipped = [], 0, 0
+    for v in names:
+        f = bn.get_update_function(v)
+        if f is None:
+            continue
+        sup = sorted({bn.get_variable_name(x) for x in f.support_variables()} | {v})
+        if len(sup) > case["max_support"]:
+            skipped += 1
+            continue
+        idx = {nm: i for i, nm in enumerate(sup)}
+        exprs = [(common.prefix(f.as_expression(), idx) if nm == v else f"v{idx[nm]}") for nm in sup]
+        ts = []
+        bad = None
+        for node in by_var.get(v, []):
+            cube = ["-"] * len(sup)
+            for p in pn.predecessors(node):
+                var, pos = place_to_variable(p)
+                if var == v:
+                    continue
+                if var not in idx:
+                    bad = f"transition {node} tests {var}, which is not in the support of the update function"
+                    break
+                cube[idx[var]] = "1" if pos else "0"
+            if bad:
+                break
+            ts.append(f"{idx[v]}:{pn.nodes[node]['direction']}:{''.join(cube)}")
+        if bad:
+            fails.append({"kind": "petri-net-not-faithful", "sig": {"what": "model"}, "detail": f"{os.path.basename(path)} {v}: {bad}"})
+            continue
+        rep = common.run_driver([f"NET {len(sup)} " + " ; ".join(exprs), f"PNCHECKV {idx[v]} " + " ".join(ts)], timeout=300)
+        checked += 1
+        if rep[1] != "OK":
+            fails.append({"kind": "petri-net-not-faithful", "sig": {"what": "model"}, "detail": f"{os.path.basename(path)} variable {v} ({len(sup) - 1} regulators): {rep[1]}"})
+    return {"fails": fails, "diffs": [], "tags": ["model:" + os.path.basename(path)], "nontrivial": checked > 3, "sig": "model:" + path,
+            "metrics": {"model_functions_checked": checked, "model_functions_skipped_large_support": skipped}}
+
+
+def idx_by_id(bn, idx):
+    """common.prefix indexes by VariableId: map ids of the support to local positions"""
+    return {vid: idx[bn.get_variable_name(vid)] for vid in bn.variables() if bn.get_variable_name(vid) in idx}
+
+
 def run_case(case):
+    if "model" in case:
+        return run_model_case(case)
     from biobalm.petri_net_translation import restrict_petrinet_to_subspace
     from biobalm.space_utils import percolate_network, percolate_space
 
